@@ -6,6 +6,13 @@ HERE = os.path.dirname(os.path.dirname(os.path.abspath(__file__)))
 
 # id -> (category, technique, text, note)
 CLAIMED = {
+ "C05": ("other", "dispatch/provenance check of the front end + constant-folded quadrature tables behind the cost functional (ast)",
+         "Narrow claim. Decided: the unified front end returns exactly what the back end it constructs returns (documented = dispatched "
+         "methods, arguments passed through unmodified), and the cost functional integrates the Euclidean flux norm with positive "
+         "weights that integrate linear functions exactly for every L1 mode and dimension (the stated mechanism of the first-moment bound). "
+         "Not decided (numerical, declined): zero on identical inputs, symmetry, scaling, lower bounds, agreement with the unique 1-d flux "
+         "or brute force, every cv2.EMD clause.",
+         "Trusted: python ast parser; sa/fold.py. The metric laws themselves are statements about computed numbers and are outside this technique."),
  "C04": ("other", "CFG with exception edges: reaching-definition comparison of loop exits (status), relational must-dataflow of distance/flux coherence over all normal and exceptional paths, block-row comparison of every assembled system, backward slices of auxiliary outputs, enum dispatch exhaustiveness (ast)",
          "Decides for every iteration index and fault point at once: the 'converged' status can tell the exception-handler exit of the "
          "iteration from the stopping-criterion exit; on every return the reported distance is the l1 dissipation of the returned "
